@@ -97,6 +97,10 @@ type c17Case struct {
 	Stop bool `json:"stop,omitempty"`
 	// number of generated cuts moved out of the class of a known finding (generator bookkeeping only)
 	Snapped int `json:"snapped,omitempty"`
+	// long-output class (shapes without tools): the output is followed by Pad repetitions of "lorem ipsum " (60-300 KB),
+	// so that a non-streamed response, and the final message of a streamed generate with its context array, is one
+	// line far above 64 KiB (and below the 512 KiB limit of api.Client's scanner); the case stores the count only
+	Pad int `json:"pad,omitempty"`
 }
 
 type c17Shape struct {
@@ -740,6 +744,9 @@ func c17Gen(t *rapid.T, o c17GenOpts) c17Case {
 	segs, kind := c17GenOutput(t, sh.argKey, sh.tools, !sh.tools || !o.knownReset)
 	c.Kind = kind
 	c.Text = join(segs)
+	if !sh.tools && rapid.IntRange(0, 39).Draw(t, "long") == 0 {
+		c.Pad = rapid.IntRange(5500, 25000).Draw(t, "pad")
+	}
 	runes := []rune(c.Text)
 	n := len(runes)
 
@@ -1384,6 +1391,13 @@ func c17Run(c c17Case, o c17Opts) (info c17Info, err error) {
 		return info, fmt.Errorf("harness set-up failed: %v", err)
 	}
 
+	if c.Pad > 0 {
+		if sh.tools || c.Pad > 25000 {
+			return invalid("pad")
+		}
+		c.Text += strings.Repeat("lorem ipsum ", c.Pad)
+		info.classes = append(info.classes, "long_output_over_64k")
+	}
 	chunksA := c17Split(c.Text, c.Cuts)
 	chunksB := c17Split(c.Text, c.Cuts2)
 	failA, failB := -1, -1
